@@ -36,6 +36,10 @@ def main():
     prop, src, sid = sys.argv[1], sys.argv[2], sys.argv[3]
     tier = sys.argv[sys.argv.index("--tier") + 1] if "--tier" in sys.argv else "quick"
     patch = os.path.join(src, "patch.diff")
+    # a later repair may have rewritten the lines a seeded change touches: the same change re-based on the current tree
+    rebased = sorted(f for f in os.listdir(src) if f.startswith("patch.rebased") and f.endswith(".diff"))
+    if rebased:
+        patch = os.path.join(src, rebased[-1])
     demo = os.path.join(src, "demo.py")
     meta = json.load(open(os.path.join(src, "meta.json"))) if os.path.exists(os.path.join(src, "meta.json")) else {}
     wt = "/tmp/v/%s" % sid
@@ -167,6 +171,7 @@ def main():
         "author_ran": meta.get("ran") or meta.get("author_ran"),
         "confirmed_independently": confirmed,
         "verifier_ran": ran,
+        "patch_used": os.path.basename(patch),
         "check_tier": tier,
         "check_exit": crc,
         "detected": crc == 1 and bool(viol),
